@@ -236,6 +236,8 @@ def run_prog(case, pid, at_limit_fn=None, on_step=None):
                     it = model.rows.get(rid)
                     if it is not None:
                         it.size = size
+            if not violations:
+                compare_meta(model, raw, violations, pid)
             if model.culled_expired:
                 probes['cull_expired'] = model.culled_expired
             if len(model.rows) > 100:
@@ -256,6 +258,26 @@ def run_prog(case, pid, at_limit_fn=None, on_step=None):
     finally:
         world.close()
     return violations, stats
+
+
+def compare_meta(model, raw, violations, pid):
+    """The columns that decide who is evicted next, row by row: store_time for every policy, access_time under
+    least-recently-used, access_count under least-frequently-used (the other two stay as written)."""
+    for rid, (store, access, count) in raw.meta().items():
+        it = model.rows.get(rid)
+        if it is None:
+            continue
+        bad = None
+        if store != it.store:
+            bad = ('store_time', store, it.store)
+        elif model.policy == 'least-recently-used' and access != it.access:
+            bad = ('access_time', access, it.access)
+        elif model.policy == 'least-frequently-used' and count != it.count:
+            bad = ('access_count', count, it.count)
+        if bad:
+            violations.append({'rule': '%s/policy-metadata' % pid, 'sig': '%s:%s' % (bad[0], model.policy),
+                               'detail': 'key %s: %s is %r, the policy rule gives %r' % (fp(it.key), bad[0], bad[1], bad[2])})
+            return
 
 
 def check_cull(cache, model, raw, got, want_exp, vol_before, violations, pid, probes):
